@@ -25,6 +25,7 @@ RULE = ("plain arrays: every numeric kind and size (i1..u8, f2 f4 f8 f16, c8 c16
         "multi-byte with single-byte/string fields, or a non-native input with inplace=True, or a 0-d or "
         "strided input.  Distinct = distinct case JSON."
         " Inputs are plain ndarrays, recarrays or a trivial ndarray subclass.")
+RULE += (" " + 'Also: structured dtypes with padding (numpy aligned layout; gap after the first field and unused tail bytes, padding holding 0xAB), compared field by field; plain arrays starting at an odd address; one array in forty with 2^16..2^18 (+1) elements.')
 ASSUMPTIONS = [
     "structured arrays are packed, not nested, and all multi-byte fields share one byte order "
     "(the property's quantifier); per-field mixtures are not generated",
